@@ -29,6 +29,16 @@ pub struct RfScn {
     pub kind: RfKind,
     pub with_shx: bool,
     pub rstack: StackCfg,
+    /// 0 = the file as the writer left it; 1, 2 = re-laid out (physical order != index order,
+    /// filler between records), so that an indexed traversal has to seek; with_shx only
+    #[serde(default)]
+    pub layout: u8,
+}
+
+/// The same records in another physical order (see fam_histr::relayout); `bounds` are not kept.
+pub fn relaid(f: &ValidFile, layout: u8) -> ValidFile {
+    let (shp, shx) = crate::fam_histr::relayout(f, layout);
+    ValidFile { shp, shx, expected: f.expected.clone(), bounds: vec![] }
 }
 
 pub fn generate_file(r: &mut Rng) -> WProg {
@@ -299,6 +309,14 @@ pub fn execute(scn: &RfScn, ctx: &mut Ctx) {
         ctx.fail("HARNESS", "invalid-scenario", "producer", "the producer workload does not yield a valid file".to_string());
         return;
     };
+    if scn.layout != 0 {
+        if !scn.with_shx || !matches!(scn.kind, RfKind::Plan(_)) || f.bounds.is_empty() {
+            ctx.fail("HARNESS", "invalid-scenario", "layout", "re-laid-out files are only traversed with their index under a fault plan".to_string());
+            return;
+        }
+        run_case(scn, &relaid(&f, scn.layout), ctx);
+        return;
+    }
     run_case(scn, &f, ctx);
 }
 
@@ -328,18 +346,22 @@ pub fn large_unit(unit: u64, ctx: &mut Ctx, ctl: &mut UnitCtl) {
 fn unit_with(w: WProg, r: &mut Rng, trunc_stride: usize, op_stride: u32, ctx: &mut Ctx, ctl: &mut UnitCtl) {
     let Some(f) = produce(&w) else {
         ctx.fail("HARNESS", "invalid-scenario", "producer", "generated producer workload does not yield a valid file".to_string());
-        ctl.after_case(ctx, || Scenario::RFault(RfScn { w: w.clone(), kind: RfKind::TruncShp(0), with_shx: false, rstack: StackCfg::Direct }));
+        ctl.after_case(ctx, || Scenario::RFault(RfScn { w: w.clone(), kind: RfKind::TruncShp(0), with_shx: false, rstack: StackCfg::Direct, layout: 0 }));
         return;
     };
     let small = *r.pick(&[1u32, 3, 7, 16, 64]);
     let rstacks = [StackCfg::Direct, StackCfg::Buf(small), StackCfg::Buf(8192)];
+    let f1 = relaid(&f, 1);
+    let f2 = relaid(&f, 2);
+    let layout_cell = std::cell::Cell::new(0u8);
     let mut case = |kind: RfKind, with_shx: bool, rstack: StackCfg, ctx: &mut Ctx, ctl: &mut UnitCtl| {
-        let scn = RfScn { w: w.clone(), kind, with_shx, rstack };
+        let layout = layout_cell.get();
+        let scn = RfScn { w: w.clone(), kind, with_shx, rstack, layout };
         if !ctl.before_case(|| Scenario::RFault(scn.clone())) {
             return;
         }
         ctx.stats.evaluations += 1;
-        run_case(&scn, &f, ctx);
+        run_case(&scn, match layout { 0 => &f, 1 => &f1, _ => &f2 }, ctx);
         if ctx.stats.samples.len() < 2 && matches!(scn.kind, RfKind::TruncShp(130)) {
             ctx.stats.samples.push(serde_json::json!({"type": type_name(scn.w.shapes[0].ty), "shapes": scn.w.shapes.len(), "kind": scn.kind, "with_shx": scn.with_shx, "rstack": format!("{:?}", scn.rstack)}));
         }
@@ -388,6 +410,35 @@ fn unit_with(w: WProg, r: &mut Rng, trunc_stride: usize, op_stride: u32, ctx: &m
                 }
             }
         }
+    }
+    // re-laid-out files: the indexed traversal seeks, so seek faults land inside iteration too
+    if f.expected.len() >= 2 {
+        for layout in [1u8, 2] {
+            layout_cell.set(layout);
+            let fl = if layout == 1 { &f1 } else { &f2 };
+            for rs in rstacks {
+                let w0 = World::with_data(Plan::default(), fl.shp.clone(), fl.shx.clone(), vec![]);
+                let _ = traverse(&w0, true, rs, fl.expected.len());
+                let ops = w0.borrow().devices[SHP].ops;
+                for k in 0..ops {
+                    if op_stride > 1 && k > 60 && k % op_stride != 0 {
+                        continue;
+                    }
+                    for kind in [FaultKind::Err((k % 6) as u8), FaultKind::Eintr] {
+                        let mut plan = Plan::default();
+                        plan.faults.push(Fault { dev: SHP as u8, at: k, kind, persistent: false });
+                        case(RfKind::Plan(plan), true, rs, ctx, ctl);
+                    }
+                }
+                for c in [1u32, 3, 8] {
+                    let mut plan = Plan::default();
+                    plan.dev[SHP].chunks = vec![c];
+                    plan.dev[SHP].eintr = Some((3, 1));
+                    case(RfKind::Plan(plan), true, rs, ctx, ctl);
+                }
+            }
+        }
+        layout_cell.set(0);
     }
     for _ in 0..8 {
         let mut plan = Plan::default();
